@@ -187,8 +187,9 @@ func FromTruthBits(tt uint64, n int) *Policy {
 
 // CNFTruthTables returns the truth tables of every CNF access structure over exactly n parties (2 <= n <= 6):
 // every antichain of >= 2 non-empty maximal unqualified sets that covers all n parties. labelled=false keeps one
-// representative per orbit under relabelling of the parties (n=3: 4, n=4: 17(?) …; the counts are printed by the
-// checks), labelled=true keeps all of them.
+// representative per orbit under relabelling of the parties (n=2: 1, n=3: 4, n=4: 19, n=5: 179, n=6: 16142 =
+// inequivalent monotone functions 16353 minus the 210 with a qualified singleton minus the constant one),
+// labelled=true keeps all of them (n=3: 8, n=4: 113, n=5: 6893).
 func CNFTruthTables(n int, labelled bool) []uint64 {
 	if n < 2 || n > 6 {
 		panic("policy: CNFTruthTables needs 2 <= n <= 6")
